@@ -590,6 +590,7 @@ type e4GenOpts struct {
 	FilterPool  []string
 	CutTypes    []int
 	MaxConn     int
+	NoCuts      bool // no un-gated cutNow steps
 }
 
 var e4Topics = []string{"t/a", "t/b", "x"}
@@ -679,7 +680,7 @@ func e4GenSteps(rt *rapid.T, o e4GenOpts) []e4Step {
 				steps = append(steps, e4Step{Kind: "sleep", Extra: r.Extra * 10})
 			case 6:
 				// un-gated cut: the reconnect races with the following submissions
-				if !held {
+				if !held && !o.NoCuts {
 					steps = append(steps, e4Step{Kind: "cutNow"})
 					if r.Extra > 0 {
 						steps = append(steps, e4Step{Kind: "sleepBase", Extra: r.Extra*2 - 100})
